@@ -25,8 +25,13 @@ Proof. intros items used ND. exact (assign_all_distinct items used ND). Qed.
 Theorem C20_collision_name_illegal_refuted :
   exists fm ext used n used',
     check_iso9660_filename fm 1 = Accept /\ mem_name fm used = true /\
-    assign_name false fm ext used = Some (n, used') /\ check_iso9660_filename n 1 = Refuse.
+    assign_name_old false fm ext used = Some (n, used') /\ check_iso9660_filename n 1 = Refuse.
 Proof. exact collision_name_illegal_refuted. Qed.
+
+Example C20_collision_name_legal_after_the_fix :
+  exists n used', assign_name false [65; 66; 46; 67; 59; 49] [67; 59; 49] [[65; 66; 46; 67; 59; 49]] = Some (n, used')
+                  /\ n = [65; 66; 48; 48; 48; 46; 67; 59; 49] /\ check_iso9660_filename n 1 = Accept.
+Proof. exact collision_name_legal_after_the_fix. Qed.
 
 Theorem C20_dedup_hash_collision_refuted :
   exists a b : list Z, a <> b /\ length a = length b /\ hash_blocks [a] = hash_blocks [b].
